@@ -8,7 +8,14 @@ def recur_units():
     return [Unit("cone_recur_delta%d" % k, P + "cone_recur_delta%d" % k, REC,
                  "descent contract, start depth 0..5, requested depth = start + %d, EVERY assignment of centre distances (21-cell tree) and thresholds: a deepest cell is full iff some level had distance <= min, partial iff it reached the requested depth with min < distance <= max, absent otherwise; children visited in z-order; threshold index = recursion level" % k,
                  timeout=900, level="B", bound="depth difference %d" % k, extra=dict(no_native=True)) for k in (0, 1, 2)]
+def full_flag_unit():
+    return Unit("cone_full_only_if_radius_ge_cell", P + "cone_full_only_if_radius_ge_cell", ["to_shs_min_max_array", "to_shs_min_max", "to_squared_half_segment"],
+                "per recursion level (3 levels, any cell sizes in [0,0.85], any radius in (0,pi]): the test `shs <= min` cannot succeed for ANY shs >= 0 (0 included) when the radius is below the cell size", timeout=600, level="P", extra=dict(no_native=True))
 def threshold_unit():
-    return Unit("cone_thresholds_contract", P + "cone_thresholds_contract", ["to_shs_min_max", "to_squared_half_segment", "(assumed monotone) f64::sin"],
+    return Unit("cone_thresholds_contract", P + "cone_thresholds_contract", ["to_shs_min_max_array", "to_shs_min_max", "to_squared_half_segment", "(assumed monotone) f64::sin"],
                 "for 0 < r <= pi, 0 <= d <= 0.85 and every distance a in [0,pi]: a <= r+d => shs(a) <= max; a <= r-d => shs(a) <= min; min <= max; r < d => min == 0 (sin replaced by a memoised monotone function); time-bounded refutation search (two double products: proof does not finish)",
                 kind="search", timeout=240, extra=dict(no_native=True))
+
+def allsky_units():
+    return [Unit("cone_allsky_d%02d" % d, P + "cone_allsky_d%02d" % d, ["Layer::cone_coverage_approx_internal", "Layer::allsky_bmoc_builder", "(contract stub) BMOCBuilderUnsafe::{new,push_all}"],
+                 "depth %d, every radius >= pi (and any centre): the builder receives exactly the 12 full base cells: every cell of the sphere covered once, full" % d, timeout=600, level="B", bound="depth %d" % d, extra=dict(no_native=True)) for d in (0, 3, 29)]
